@@ -152,9 +152,20 @@ def do_call(client, callid, a, b):
     from udsoncan import (MemoryLocation, DataFormatIdentifier, CommunicationType, Baudrate, DynamicDidDefinition, Filesize, IOValues, IOMasks)
     if callid == 8:
         return client.clear_dtc(a[0], memory_selection=oi(a, 1)), sd_none
+    W = getattr(client, '_verif_wrappers', False)
+    from harness import wrappers
     if callid == 9:
+        if W and a[1] in wrappers.ROUTINE:
+            m = getattr(client, wrappers.ROUTINE[a[1]])
+            d = ob(a, 2, b, 0)
+            return (m(a[0]) if d is None else m(a[0], d)), sd_routine
         return client.routine_control(a[0], a[1], ob(a, 2, b, 0)), sd_routine
     if callid == 10:
+        rec = ob(a, 1, b, 0)
+        if W and a[0] in (1, 2, 3) and rec is None:
+            return getattr(client, wrappers.TIMING[a[0]])(), sd_atp
+        if W and a[0] == 4 and rec is not None:
+            return client.set_timing_parameters(rec), sd_atp
         return client.access_timing_parameter(a[0], ob(a, 1, b, 0)), sd_atp
     if callid == 11:
         ct = CommunicationType(a[2], bool(a[3]), bool(a[4])) if a[1] == 0 else a[2]
@@ -187,6 +198,9 @@ def do_call(client, callid, a, b):
                 df.add(memloc(a, 3 + 6 * i))
         return client.dynamically_define_did(did, df), sd_dddi
     if callid == 21:
+        if W:
+            did = oi(a, 0)
+            return (client.clear_all_dynamically_defined_did() if did is None else client.clear_dynamically_defined_did(did)), sd_dddi
         return client.do_clear_dynamically_defined_did(oi(a, 0)), sd_dddi
     if callid == 22:
         return client.read_data_by_identifier(list(a[1:1 + a[0]])), sd_rdbi
@@ -216,7 +230,21 @@ def do_call(client, callid, a, b):
             fs = a[5]
         else:
             fs = Filesize(uncompressed=oi(a, 6), compressed=oi(a, 8), width=oi(a, 10))
+        if W and a[0] in wrappers.FILE:
+            wname, wnames = wrappers.FILE[a[0]]
+            if all(v is None for n, v in (('dfi', dfi), ('fs', fs)) if n not in wnames):
+                wargs = [{'dfi': dfi, 'fs': fs}[n] for n in wnames]
+                while wargs and wargs[-1] is None:
+                    wargs.pop()
+                return getattr(client, wname)(b[0].decode('latin-1'), *wargs), sd_rft
         return client.request_file_transfer(a[0], b[0].decode('latin-1'), dfi, fs), sd_rft
+    if callid == 28 and W and a[0] in wrappers.AUTH:
+        vals = {'cc': oi(a, 1), 'evalid': oi(a, 3), 'cert': ob(a, 5, b, 0), 'chal': ob(a, 6, b, 1), 'algo': ob(a, 7, b, 2), 'certdata': ob(a, 8, b, 3),
+                'pown': ob(a, 9, b, 4), 'eph': ob(a, 10, b, 5), 'add': ob(a, 11, b, 6)}
+        wname, wnames = wrappers.AUTH[a[0]]
+        wargs = wrappers.narrow(vals, wnames, wrappers.AUTH_ALL)
+        if wargs is not None and all(x is not None for x in wargs):
+            return getattr(client, wname)(*wargs), sd_auth
     if callid == 28:
         return client.authentication(a[0], communication_configuration=oi(a, 1), certificate_evaluation_id=oi(a, 3),
                                      certificate_client=ob(a, 5, b, 0), challenge_client=ob(a, 6, b, 1), algorithm_indicator=ob(a, 7, b, 2),
@@ -227,6 +255,15 @@ def do_call(client, callid, a, b):
         sev = oi(a, 3)
         if sev is not None and a[5] == 1:
             sev = Dtc.Severity.from_byte(sev & 0xFF)
+        if W and a[0] in wrappers.DTC:
+            vals = {'status': oi(a, 1), 'severity': sev, 'dtc_class': oi(a, 6), 'dtc': oi(a, 8), 'snap': oi(a, 10), 'ext': oi(a, 12),
+                    'memsel': oi(a, 14), 'fgid': oi(a, 16), 'ext_size': oi(a, 18)}
+            wname, wnames = wrappers.DTC[a[0]]
+            wargs = wrappers.narrow(vals, wnames, wrappers.DTC_ALL)
+            if wargs is not None and all(x is not None for n, x in zip(wnames, wargs) if n != 'ext_size'):
+                if 'ext_size' in wnames and vals['ext_size'] is None:
+                    wargs = wargs[:-1]
+                return getattr(client, wname)(*wargs), sd_dtc
         return client.read_dtc_information(a[0], status_mask=oi(a, 1), severity_mask=sev, dtc_class=oi(a, 6), dtc=oi(a, 8),
                                            snapshot_record_number=oi(a, 10), extended_data_record_number=oi(a, 12),
                                            memory_selection=oi(a, 14), functional_group_id=oi(a, 16), extended_data_size=oi(a, 18)), sd_dtc
